@@ -120,6 +120,22 @@ def call_algebraic(arr1, arr2):
 import pipeline as PL
 
 
+def sweep_kept(res, kept, calls, last_sweep):
+    """every kept result must still hold the values it had when it was returned; the replay is the call that produced the changed
+    result followed by the calls made since it was last seen intact"""
+    for j, (idx, obj, snap) in enumerate(kept):
+        if obj is None:
+            continue
+        if obj.shape != snap.shape or not np.array_equal(obj, snap, equal_nan=True):
+            seq = [calls[idx]] + calls[max(idx + 1, last_sweep[0]):]
+            res.failure("kept-result-changed-by-later-calls", "the %d x %d result of call %d (%s), complete when it was returned, reads %s "
+                        "instead of %s after %d later call(s): crossings are lost / replaced for a caller that keeps the array" %
+                        (snap.shape[0], snap.shape[1], idx, calls[idx]["route"], np.asarray(obj).tolist()[:2], snap.tolist()[:2],
+                         len(calls) - 1 - idx), {"kind": "kept", "seq": seq[:40]})
+            kept[j] = (idx, None, snap)
+    last_sweep[0] = len(calls)
+
+
 def main():
     warnings.simplefilter("ignore")
     np.seterr(all="ignore")
@@ -129,7 +145,10 @@ def main():
     thorough = tier == "thorough"
     res = C.Result("C03")
     rep = C.replay_case()
-    if rep:
+    if rep and rep.get("kind") == "kept":
+        # a result kept by the caller and changed by later calls: run the recorded call sequence, keep every result, read again
+        work = [(Z.unjpair(c["pair"]), c["route"]) for c in rep["seq"]]
+    elif rep:
         work = [(Z.unjpair(rep["pair"]), rep["route"])]
     else:
         pairs = Z.all_pairs(rnd, tier, max_deg=8 if thorough else 6)
@@ -156,6 +175,7 @@ def main():
                 trace_idx[i] = PL.ask_trace(drv, cfg, p["n1"], p["n2"])
     model_replies = drv.run() if drv.lines else []
 
+    kept, calls, last_sweep = [], [], [0]
     for wi, (p, route) in enumerate(work):
         n1, n2 = p["n1"], p["n2"]
         d1, d2 = len(n1[0]) - 1, len(n2[0]) - 1
@@ -170,6 +190,13 @@ def main():
             res.count(key, nontrivial=False, kind=p["kind"], domain="outside:" + why)
             continue
         st, out = call_geometric(bezier, route, arr1, arr2)
+        calls.append(rc)
+        if st == "ok" and isinstance(out, np.ndarray) and out.size:
+            # the caller keeps the result, as a program does: what was a complete, duplicate-free set of crossings when it was returned
+            # must still be that set after later calls (a result that is a view of a library workspace is rewritten by them)
+            kept.append((len(calls) - 1, out, out.copy()))
+        if len(calls) % 16 == 0:
+            sweep_kept(res, kept, calls, last_sweep)
         nroots = len(iso.roots) if why is None else 0
         res.count(key, nontrivial=True, kind=p["kind"], domain="inside", route=route,
                   certified_roots=nroots if nroots < 5 else "5+",
@@ -272,6 +299,8 @@ def main():
                         (route, p["kind"], p["tag"], "; ".join(what), len(iso.roots), shown), rc)
         if pending_mismatch and len(res.failures) + sum(res.dist.get("failure_keys", {}).values()) == nfail0:
             res.mismatch("all_intersections", rc, *pending_mismatch)
+    sweep_kept(res, kept, calls, last_sweep)
+    res.notes.append("results kept across later calls and read again: %d" % len(kept))
     # the round-level tie: isolated differences are threshold decisions taken on the other side by binary64 (a box edge or a
     # linearisation error within an ulp of its bound) and are only counted; a systematic difference is a broken correspondence
     if len(trace_stats[1]) >= 3 and len(trace_stats[1]) > 0.02 * trace_stats[0]:
